@@ -463,6 +463,40 @@ def emit_fn(vf, src, path, spec, label=None, indent='    ', _canary_copy=False):
     return it
 
 
+def emit_spec_twin(vf, src, path, name, indent='    ', replace=()):
+    """Emit the body of a real function a second time as `open spec fn <name>` (same text): lets
+    relational properties (bijection, total order) be stated as lemmas over the code's own table."""
+    it = src.find(path)
+    head = strip_vis(drop_comments(src.text[it.start:it.body_open]))
+    body = strip_attrs_and_docs(src.text[it.body_open + 1:it.end - 1])
+    for (pat, rep) in replace:
+        body = re.sub(pat, rep, body)
+    sig, where = split_sig(head, None)
+    sig = re.sub(r'\bfn\s+\w+', 'open spec fn ' + name, sig, 1)
+    vf.emit(indent + 'pub ' + sig.strip())
+    vf.emit(indent + '{')
+    vf.emit(body)
+    vf.emit(indent + '}')
+    vf.rewrites.append('X8 %s: body re-emitted verbatim as spec fn %s' % ('::'.join(path), name))
+
+
+def emit_lemma(vf, oid, props, text):
+    lo = vf.lineno()
+    vf.emit(text)
+    ob = Oblig(oid, props, 'lemma', oid, '')
+    ob.lines = (lo, vf.lineno() - 1)
+    vf.obligs.append(ob)
+    if vf.canary:
+        txt, c1 = re.subn(r'\bproof fn (\w+)', r'proof fn \1__canary', text, 1)
+        txt, c2 = re.subn(r'\bensures\b', 'ensures false,', txt, 1)
+        if c1 and c2:
+            lo = vf.lineno()
+            vf.emit(txt)
+            ob = Oblig(oid + '#canary', set(), 'canary', oid, 'false')
+            ob.lines = (lo, vf.lineno() - 1)
+            vf.obligs.append(ob)
+
+
 def emit_item(vf, src, path, indent='', keep_pub=False, replace=()):
     """Emit a struct/enum/const/type item (X1 + visibility stripped on the item itself)."""
     it = src.find(path)
